@@ -1,7 +1,9 @@
 (* Correspondence for C14: the harness prints, per case, a table of deltas (stamp + bincode
    bytes produced by the real code), the bytes the real encoders produced for them (WAL entry,
    segment, checkpoint) and, for every mutation of each image (every truncation length, bit
-   flips, patches), what the real decoders returned.  The model (Model/Wal.v, Model/Codec.v with
+   flips, patches, field overwrites, fills, multi-site combinations), what the real decoders
+   returned; plus small WAL directories written by a real WalRotator and what a fresh rotator
+   recovered from them.  The model (Model/Wal.v, Model/Codec.v with
    crc := Lib/Crc32.crc32) must produce the same bytes and the same outcomes. *)
 From Coq Require Import NArith List String Bool.
 From RV Require Export Lib.Hex Lib.Bytes Lib.Crc32 Model.Wal Model.Codec Corr.Common.
@@ -12,7 +14,9 @@ Inductive mutation :=
 | MNone
 | MTrunc (k : N)
 | MFlip (byte bit : N)
-| MPatch (off : N) (data : string).
+| MPatch (off : N) (data : string)
+| MFill (off len v : N)                  (* len bytes from off set to v (clipped to the image) *)
+| MSeq (ms : list mutation).             (* several independent sites, applied in order *)
 
 Fixpoint upd {A} (i : nat) (f : A -> A) (l : list A) : list A :=
   match l, i with
@@ -26,12 +30,14 @@ Fixpoint patch (off : nat) (p d : bytes) : bytes :=
   | S o, x :: r => x :: patch o p r
   | O, x :: r => match p with [] => d | y :: p' => y :: patch O p' r end
   end.
-Definition mutate (d : bytes) (m : mutation) : bytes :=
+Fixpoint mutate (d : bytes) (m : mutation) {struct m} : bytes :=
   match m with
   | MNone => d
   | MTrunc k => takeN k d
   | MFlip b i => if b <? lenN d then upd (N.to_nat b) (fun y => N.lxor y (N.shiftl 1 i)) d else d
   | MPatch o p => patch (N.to_nat o) (unhex p) d
+  | MFill o n v => patch (N.to_nat o) (repeat v (N.to_nat n)) d
+  | MSeq ms => fold_left (fun acc x => mutate acc x) ms d
   end.
 
 (* the deltas of a case: stamp of the value (delta.value.timestamp.time) and bincode bytes *)
@@ -57,8 +63,13 @@ Inductive unchecked_out := UPanic | UReturned | UOpenErr.
 Record chk_case := CK { ck_keys : N; ck_ts : N; ck_last : N; ck_data : string; ck_bytes : string;
                         ck_probes : list (mutation * chk_out * unchecked_out) }.
 
+(* WAL directory written by a real WalRotator (append*, sync) and read back by a FRESH rotator:
+   (name, image) pairs in list() order and what recover_entries_after(0) returned
+   (indices of the structurally equal originals; None = Err) *)
+Record rot_case := RT { rt_files : list (string * string); rt_out : option (list N) }.
+
 Record case := K { k_deltas : list delta; k_wal : list wal_case; k_seg : list seg_case;
-                   k_chk : list chk_case }.
+                   k_chk : list chk_case; k_rot : list rot_case }.
 
 Definition nthN {A} (i : N) (l : list A) : option A := nth_error l (N.to_nat i).
 
@@ -134,8 +145,17 @@ Definition check_chk (k : case) (c : chk_case) : bool :=
     | _, _ => false
     end) (ck_probes c).
 
+Definition check_rot (k : case) (r : rot_case) : bool :=
+  let st := map (fun f => (unhex (fst f), unhex (snd f))) (rt_files r) in
+  match recover_after crc32 (deser_ok_of k) st 0, rt_out r with
+  | Ok es, Some idx => list_eqb (map (fun e => payload_index (k_deltas k) 0 (e_data e)) es) idx
+  | Err _, None => true
+  | _, _ => false
+  end.
+
 Definition check (k : case) : bool :=
-  forallb (check_wal k) (k_wal k) && forallb (check_seg k) (k_seg k) && forallb (check_chk k) (k_chk k).
+  forallb (check_wal k) (k_wal k) && forallb (check_seg k) (k_seg k) && forallb (check_chk k) (k_chk k)
+  && forallb (check_rot k) (k_rot k).
 
 Definition mismatches := mismatches_with check.
 
